@@ -2,7 +2,10 @@
 //! `<op> <args> => <implementation output>` (DESIGN §2.3).
 //!   ohharness run <suite> <quick|thorough> <seed>   generate operations and execute them
 //!   ohharness exec                                   execute the operation lines read on stdin
+mod ast;
 mod c19;
+mod ev;
+mod gen_expr;
 mod util;
 
 use std::io::{BufRead, BufWriter, Write};
@@ -15,7 +18,18 @@ fn exec_line(line: &str) -> String {
     }
     let toks: Vec<&str> = line.split(' ').collect();
     let (op, args) = (toks[0], &toks[1..]);
-    let res = if op.starts_with("et.") { c19::exec(op, args) } else { None };
+    let t0 = std::time::Instant::now();
+    let res = if op.starts_with("et.") {
+        c19::exec(op, args)
+    } else if op.starts_with("ev.") {
+        ev::exec(op, args)
+    } else {
+        None
+    };
+    let dt = t0.elapsed().as_secs_f64();
+    if dt > 0.25 {
+        eprintln!("slow-op {dt:.2}s {line}");
+    }
     match res {
         Some(r) => format!("{line} => {r}"),
         None => format!("{line} => harness-bad-op"),
@@ -37,6 +51,7 @@ fn main() {
             };
             match suite {
                 "c19" => c19::gen(tier, &mut rng, &mut emit),
+                "ev" => ev::gen(tier, &mut rng, &mut emit),
                 _ => {
                     eprintln!("unknown suite {suite}");
                     std::process::exit(2);
